@@ -205,7 +205,7 @@ def mutated(draw, base):
     if not idx:
         return text
     kind = draw(st.sampled_from(['delete', 'duplicate', 'swap', 'flip', 'truncate', 'dropvalue', 'addvalue', 'rename',
-                                 'retype', 'flip', 'flip']))
+                                 'retype', 'flip', 'flip', 'unknown-type', 'unknown-type']))
     i = idx[draw(st.integers(0, len(idx) - 1))]
     vals = [j for j in idx if toks[j][0] in ('string', 'guid', 'fraction', 'number') or toks[j][1].upper() in ('TRUE', 'FALSE')]
     words = [j for j in idx if toks[j][0] == 'word']
@@ -232,6 +232,12 @@ def mutated(draw, base):
     elif kind == 'addvalue' and vals:
         j = vals[draw(st.integers(0, len(vals) - 1))]
         toks.insert(j, ('x', draw(st.sampled_from(FLIPS)) + ', '))
+    elif kind == 'unknown-type':
+        # the declared type of one attribute (plain, identifying or referential alike) becomes a name the library does not know
+        tys = [j for j in words if toks[j][1].upper() in ('BOOLEAN', 'INTEGER', 'REAL', 'STRING', 'UNIQUE_ID')]
+        if tys:
+            j = tys[draw(st.integers(0, len(tys) - 1))]
+            toks[j] = ('word', draw(st.sampled_from(['NOPE', 'DATE', 'int', 'UNIQUEID', 'void', 'inst_ref'])))
     elif kind in ('rename', 'retype') and words:
         j = words[draw(st.integers(0, len(words) - 1))]
         toks[j] = ('word', draw(st.sampled_from(['Nope', 'INTEGER', 'STRING', 'DATE', 'X', 'self', 'Id', 'M', '1C', 'R7'])))
